@@ -48,7 +48,15 @@ inductive Stat where
   | do_ (body : List Stat)
   | if_ (c : Expr) (t : List Stat) (e : List Stat)
   | callS (f : Name) (args : List Expr)
+  /-- `local n <const> = val` (a local with an attribute: three more tokens after the name) -/
+  | loclAttr (n : Name) (val : Expr)
+  /-- `function obj.f1…fk(ps) body end`, or with `colon` the last separator is `:` (a method with
+  the implicit parameter `self`); the field names are not variables -/
+  | method (obj : Name) (fields : Nat) (colon : Bool) (ps : List Name) (body : List Stat)
 end
+
+/-- the name `self` -/
+def selfName : Name := 3
 
 /-- one resolution record: position of a name use, position of the local declaration it denotes
 (`none` = global) -/
@@ -67,6 +75,9 @@ def lookupEnv : Env → Name → Option Nat
 def bindNames (env : Env) (p : Nat) : List Name → Env
   | [] => env
   | n :: ns => bindNames ((n, p) :: env) (p + 2) ns
+
+/-- the implicit parameter `self` of a method, declared at the `:` -/
+def selfEnv (colon : Bool) (p : Nat) (env : Env) : Env := if colon then (selfName, p) :: env else env
 
 structure RefSt where
   pos : Nat
@@ -126,6 +137,13 @@ def refStat (env : Env) (s : RefSt) : Stat → RefSt × Env
     let s1 := (refBlock env ((refExpr env (s.skip 1) c).skip 1) t).1
     (((refBlock env (s1.skip 1) e).1).skip 1, env)
   | .callS f args => ((refExprs env ((s.use env f).skip 1) args).skip 1, env)
+  | .loclAttr n val =>                                                        -- local n < const > = val
+    (refExpr env (s.skip 6) val, (n, s.pos + 2) :: env)
+  | .method obj k colon ps body =>                                            -- function obj [. f]* [: m] ( ps ) body end
+    -- `self` is an implicit first parameter, declared at the `:`
+    let s1 := (s.skip 1).use env obj
+    (((refBlock (bindNames (selfEnv colon (s.pos + 4 * k) env) (s.pos + 6 + 4 * k) ps)
+      (s1.skip (2 * k + 2 + ps.length)) body).1).skip 1, env)
 def refBlock (env : Env) (s : RefSt) : List Stat → RefSt × Env
   | [] => (s, env)
   | st :: rest => refBlock (refStat env s st).2 (refStat env s st).1 rest
@@ -264,6 +282,14 @@ def ISt.pop (s : ISt) : ISt :=
 /-- `DeclAnalyzer::add_decl` -/
 def ISt.addDecl (s : ISt) (d : Decl) : ISt := { s with frames := addChild s.frames (.decl d) }
 
+/-- the implicit `self` declarations of a closure: one for a method, declared at the `:` -/
+def selfDecls (colon : Bool) (p : Nat) : List Decl :=
+  if colon then [{ name := selfName, pos := p, isLocal := true }] else []
+
+/-- `try_add_self_param` -/
+def ISt.addImplicitSelf (s : ISt) (colon : Bool) (p : Nat) : ISt :=
+  if colon then s.addDecl { name := selfName, pos := p, isLocal := true } else s
+
 /-- `analyze_name_expr` on a name that is not itself a fresh global declaration -/
 def ISt.use (s : ISt) (n : Name) : ISt :=
   { s with pos := s.pos + 2, out := (s.pos, localOf (findDecl s.frames n s.pos)) :: s.out }
@@ -339,6 +365,16 @@ def implStat (s : ISt) : Stat → ISt
     let s1 := implBlock ((implExpr (s.skip 1) c).skip 1) t
     (implBlock (s1.skip 1) e).skip 1
   | .callS f args => (implExprs ((s.use f).skip 1) args).skip 1
+  | .loclAttr n val =>
+    let s1 := (s.push .localOrAssign s.pos).addDecl { name := n, pos := s.pos + 2, isLocal := true }
+    (implExpr (s1.skip 6) val).pop
+  | .method obj k colon ps body =>
+    -- FuncStat / MethodStat scope (treated alike by the lookup); the prefix name is an ordinary use;
+    -- `try_add_self_param` declares `self` at the `:` before the parameters (not a global: `isLocal`)
+    let s1 := ((s.push .funcStat s.pos).skip 1).use obj
+    let s2 := (s1.skip (2 * k)).push .closure (s.pos + 4 + 4 * k)
+    let s4 := (s2.addImplicitSelf colon (s.pos + 4 * k)).addLocals (s.pos + 6 + 4 * k) ps
+    (((implBlock (s4.skip (2 + ps.length)) body).skip 1).pop).pop
 def implStats (s : ISt) : List Stat → ISt
   | [] => s
   | st :: rest => implStats (implStat s st) rest
